@@ -246,6 +246,29 @@ macro_rules! rand_backend {
                             }
                         }
                     }
+                    "pk_diff" => {
+                        // two public-key encryptions of the same plaintext with the same ephemeral secret stream and different
+                        // error streams: their difference is exactly the difference of the fresh errors of every column
+                        let mut pk = GLWEPublicKey::alloc(deg, Base2K(b), TorusPrecision(k), Rank(rank));
+                        m.glwe_public_key_generate(&mut pk, &skp, &ni, &mut Source::new(seed32(0x9100 + sk_id)), &mut Source::new(seed32(0x9200 + sk_id)));
+                        let mut pkp: GLWEPublicKeyPrepared<DeviceBuf<BE>, BE> = m.glwe_public_key_prepared_alloc_from_infos(&pk);
+                        m.glwe_public_key_prepare(&mut pkp, &pk);
+                        let mut c1 = GLWE::alloc(deg, Base2K(b), TorusPrecision(k), Rank(rank));
+                        let mut c2 = GLWE::alloc(deg, Base2K(b), TorusPrecision(k), Rank(rank));
+                        m.glwe_encrypt_pk(&mut c1, &pt, &pkp, &ni, &mut Source::new(seed_xa), &mut source_xe, scratch.borrow());
+                        m.glwe_encrypt_pk(&mut c2, &pt, &pkp, &ni, &mut Source::new(seed_xa), &mut Source::new(seed32(0x6800 + xe_id)), scratch.borrow());
+                        let mut diff = GLWE::alloc(deg, Base2K(b), TorusPrecision(k), Rank(rank));
+                        for col in 0..rank as usize + 1 {
+                            for j in 0..size as usize {
+                                let (x, y) = (c1.data().at(col, j).to_vec(), c2.data().at(col, j).to_vec());
+                                for (d, (p, q)) in diff.data_mut().at_mut(col, j).iter_mut().zip(x.iter().zip(y.iter())) {
+                                    *d = p - q;
+                                }
+                            }
+                        }
+                        split_glwe(&c1.to_ref(), &mut o.mask, &mut o.body);
+                        o.cells.push(dump_glwe_ref(&diff.to_ref()));
+                    }
                     other => panic!("harness: unknown rand layout {other}"),
                 }
                 o
@@ -391,7 +414,7 @@ pub fn run_rand(mods: &mut RMods, c: &Value, out: &mut dyn FnMut(Value)) {
         "stat" => {
             let reps = gu(c, "reps", 64);
             for r in 0..reps {
-                let be = (r % 4) as usize;
+                let be = c.get("be").and_then(|v| v.as_u64()).map(|v| v as usize).unwrap_or((r % 4) as usize);
                 let v = (r + 10, r / 7 + 10, r + 10, r + 10);
                 let mut e = c.clone();
                 e["ev"] = json!("stat");
